@@ -36,6 +36,7 @@ RULES = [
     ("R-clpat", ". any ( | ( $pat ) | $b )", ". any ( | p | let ( $pat ) = p ; $b )", "closure pattern parameter -> named parameter + leading let"),
     ("R-clpat", ". binary_search_by ( | ( $pat ) | $b )", ". binary_search_by ( | p | let ( $pat ) = p ; $b )", "closure pattern parameter -> named parameter + leading let"),
     ("R-extconst", "SocketAddr :: from ( ( Ipv4Addr :: UNSPECIFIED , 0 ) )", "vx_unspecified_addr ( )", "associated const of an external type (unsupported by Verus) -> opaque stand-in returning a SocketAddr (the value is a placeholder for unused slots)"),
+    ("R-ordmin", "( bootstrap_attempt + 1 ) . min ( 9 )", "vx_min_u64 ( bootstrap_attempt + 1 , 9 )", "Ord::min is a provided trait method (no assume_specification possible): verified helper returning the smaller argument"),
     ("R-ordmax", "NODE_TIMEOUT . max ( $b )", "vx_duration_max ( NODE_TIMEOUT , $b )", "Ord::max is a provided trait method (Verus accepts no assume_specification for it): stand-in returning one of its arguments"),
     ("R-foriter", "for ( node , dist_to_beat ) in nodes {", "let mut vx_it = nodes ; loop { let vx_nx = vx_it . next ( ) ; if vx_nx . is_none ( ) { break ; } let ( node , dist_to_beat ) = vx_nx . unwrap ( ) ;", "for over a generic iterator -> its definition (loop over next() until None); Verus for-loops support neither generic iterators nor `continue`"),
     ("R-foriter", "for node_info in self . all_sorted_nodes . iter_mut ( ) . filter ( $c ) {", "let mut vx_it = self . all_sorted_nodes . iter_mut ( ) . filter ( $c ) ; loop { let vx_nx = vx_it . next ( ) ; if vx_nx . is_none ( ) { break ; } let node_info = vx_nx . unwrap ( ) ;", "for over an iterator adapter chain -> its definition (loop over next() until None); Verus for-loops do not support `continue`"),
